@@ -38,6 +38,17 @@ DOMAINS = {
 }
 
 
+def copysign_check(u, var, v):
+    """value = copysign of the operand values; variance of the first operand unchanged"""
+    def chk(vals, line):
+        t = line.split()
+        if not t or t[0] != 'ok': return 'error result ' + line[:80]
+        if dhex(hexd(t[1])) != dhex(math.copysign(u, v)): return 'copysign(%r, %r) returned value %r' % (u, v, hexd(t[1]))
+        if hexd(t[2]) != var: return 'copysign changed the variance'
+        return None
+    return chk
+
+
 def gen_C11(g, tier):
     n = 40 if tier == 'quick' else 1500
     cs = []
@@ -69,7 +80,8 @@ def gen_C11(g, tier):
         cs.append(Case('ef.atan2 %s' % hexes([s, vs, c, vc]), 'cmp', 'function-atan2'))
         if abs(c) > 1e-3 or abs(s) > 1e-3:
             cs.append(Case('o.c11.deriv2 %s' % hexes([s, vs, c, vc]), 'orc', 'derivative-atan2', check=small_hex_check(1e-6)))
-        cs.append(Case('ef.copysign %s' % hexes([g.r.uniform(-5, 5), vs, g.choice([-0.0, 0.0, -3.0, 2.0]), vc]), 'cmp', 'function-copysign'))
+        cu, cv = g.r.uniform(-5, 5), g.choice([-0.0, 0.0, -3.0, 2.0, -g.r.uniform(0.1, 9), g.r.uniform(0.1, 9)])
+        cs.append(Case('ef.copysign %s' % hexes([cu, vs, cv, vc]), 'cmp', 'function-copysign', check=copysign_check(cu, vs, cv)))
         cs.append(Case('ef.arith %s' % hexes([g.r.uniform(-5, 5), vs, g.r.uniform(-5, 5), vc]), 'cmp', 'arith-double'))
         st = []
         I = 10 ** g.r.uniform(-3, 3)
@@ -149,6 +161,9 @@ def gen_C12(g, tier):
             k = g.randint(1, n - 1)
             cs.append(Case('mr.merge %d %d %s' % (k, n - k, hexes(ang)), 'cmp', 'circular-merge'))
         cs.append(Case('o.c12.direction %d %s' % (n, hexes(ang)), 'orc', 'circular-direction', check=direction_check))
+        # mirror-symmetric pair (and repeated copies of it): the sines cancel exactly, the direction is that of the vector sum
+        a = g.choice([3.0, 2.5, 0.5, 1.0, 2.0, g.r.uniform(0.05, 3.1)]); v = g.choice([1.0, 0.01, g.r.uniform(0.01, 2)]); copies = g.choice([1, 1, 2, 3])
+        cs.append(Case('o.c12.mirror %d %s' % (2 * copies, hexes([a, v, -a, v] * copies)), 'orc', 'circular-mirror-pair', check=direction_check))
         cs.append(Case('o.c12.circ %d %s' % (n, hexes(ang)), 'orc', 'circular-all-orders', check=small_hex_check(1e-9)))
     return cs
 
